@@ -36,6 +36,7 @@ var detCases = []detCase{
 	{"hdec", "default", 150, false},
 	{"hcli", "default", 24, false},
 	{"hbits", "benign", 24, false},
+	{"halg", "benign", 24, false},
 	{"hrepl", "default", 24, false},
 	{"hconc", "default", 8, false},
 	{"hselfrace", "planted", 20, true},
